@@ -277,3 +277,21 @@ package oras
 //@   ensures [C01:root-tagged-when-already-present] sameDesc(desc, root) && result == nil ==> pcTagged
 //@
 //@ pure sameDesc(a ocispec.Descriptor, b ocispec.Descriptor) bool = a.Size == b.Size && a.Digest == b.Digest && a.MediaType == b.MediaType
+//@
+//@ // ---------------------------------------------------------------- extended copy (C03)
+//@ func fetchArtifactType
+//@   requires [wf] src != nil
+//@   ensures@2 [C03:artifact-manifest-type] result1 == nil ==> result0 == manifest.ArtifactType
+//@   ensures@4 [C03:artifactType-else-config] result1 == nil ==> result0 == (manifest.ArtifactType != "" ? manifest.ArtifactType : manifest.Config.MediaType)
+//@   ensures [C03:other-media-types-have-no-type] desc.MediaType != "application/vnd.oci.artifact.manifest.v1+json" && desc.MediaType != "application/vnd.oci.image.manifest.v1+json" && result1 == nil ==> result0 == ""
+//@
+//@ func fetchAnnotations
+//@   requires [wf] src != nil
+//@   ensures [C03:nonnil] result1 == nil ==> result0 != nil
+//@
+//@ ghost local ecTagged bool
+//@ func ExtendedCopy
+//@   entry set ecTagged = false
+//@   call dst.Tag set ecTagged = ecTagged || (result == nil && args.reference == (dstRef0 == "" ? srcRef : dstRef0) && args.desc == node)
+//@   call ExtendedCopyGraph requires [C03:copies-the-resolved-node] args.node == node && args.opts == opts.ExtendedCopyGraphOptions
+//@   ensures@5 [C03:tags-node] result1 == nil ==> ecTagged && result0 == node
